@@ -330,3 +330,53 @@ Proof.
     cbn [bind List.length Nat.add]. rewrite He in *.
     rewrite (ei_drain_from w e n Hn (List.length suf) suf ds c); auto. cbn [List.length] in Hf. lia.
 Qed.
+
+(* ------------------------------------------------------------------ ElementsIterator tolerates modification *)
+(* Whatever the state (index, last_output) and whatever the content list has become since the previous call:
+   next() does not panic or run out of fuel, an element it returns differs from the one returned by the previous
+   call (last_output) and becomes the new last_output, and after None the iterator is fused. *)
+Lemma ei_loop_total content last : forall f index,
+  (N.to_nat (N.of_nat (List.length content) - index) < f)%nat ->
+  exists o i l, ei_loop f content index last = Val (o, i, l) /\
+    (forall e, o = Some e -> last <> Some e /\ l = Some e /\ nth_opt content (N.to_nat i) = Some (CElem e)) /\
+    (o = None -> i = USIZE_MAX /\ l = last).
+Proof.
+  induction f as [|f IH]; intros index Hf; [lia|]. cbn [ei_loop].
+  destruct (index <? N.of_nat (List.length content)) eqn:Elt.
+  - apply N.ltb_lt in Elt.
+    destruct (nth_opt content (N.to_nat index)) as [[sub|d]|] eqn:En.
+    + destruct last as [prev|].
+      * destruct (prev =? sub) eqn:Ep.
+        -- apply IH. lia.
+        -- apply N.eqb_neq in Ep. exists (Some sub), index, (Some sub). split; auto. split; [|discriminate].
+           intros e [= <-]. split; [congruence|]. auto.
+      * exists (Some sub), index, (Some sub). split; auto. split; [|discriminate].
+        intros e [= <-]. split; [congruence|]. auto.
+    + apply IH. lia.
+    + exfalso. destruct (nth_opt_lt content (N.to_nat index)) as (x & Hx); [lia|]. congruence.
+  - exists None, USIZE_MAX, last. split; auto. split; [discriminate|auto].
+Qed.
+
+Theorem ei_next_tolerant s w n : w_nodes w (ei_elem s) = Some n ->
+  exists o s', ei_next s w = Val (o, s') /\ ei_elem s' = ei_elem s /\
+    (forall e, o = Some e -> ei_last s <> Some e /\ ei_last s' = Some e /\ In e (kids n)) /\
+    (o = None -> ei_index s' = USIZE_MAX /\ ei_last s' = ei_last s).
+Proof.
+  intros Hn. unfold ei_next. rewrite Hn.
+  destruct (ei_loop_total (n_content n) (ei_last s) (S (List.length (n_content n))) (ei_index s)) as
+    (o & i & l & -> & Hs & Hnone); [lia|].
+  cbn [bind]. exists o, (mkEI (ei_elem s) i l). split; auto. split; auto. split.
+  - intros e He. destruct (Hs e He) as (H1 & H2 & H3). split; auto. split; auto.
+    apply in_elems. eapply nth_opt_In; eauto.
+  - intros He. destruct (Hnone He). auto.
+Qed.
+
+(* once fused it stays fused, on every later content list *)
+Corollary ei_fused s w n : w_nodes w (ei_elem s) = Some n -> ei_index s = USIZE_MAX ->
+  (List.length (n_content n) < N.to_nat USIZE_MAX)%nat ->
+  exists s', ei_next s w = Val (None, s') /\ ei_index s' = USIZE_MAX.
+Proof.
+  intros Hn Hi Hlen. unfold ei_next. rewrite Hn, Hi. cbn [ei_loop].
+  assert (E : USIZE_MAX <? N.of_nat (List.length (n_content n)) = false) by (apply N.ltb_ge; lia).
+  rewrite E. cbn [bind]. eexists. split; eauto.
+Qed.
